@@ -45,6 +45,7 @@ pub fn probes(_tier: &str) -> Vec<String> {
     "fault.ledger.stale_read",
     "probe.endpoint_prefix.eJy",
     "probe.endpoint_prefix.other",
+    "probe.foreign_service_same_fragment",
   ]
   .iter()
   .map(|s| (*s).to_owned())
@@ -218,6 +219,24 @@ pub fn run(params: &Params) {
     }
     services.push(sid);
   }
+  // optionally the document also lists a bitmap service of ANOTHER DID with the same fragment as the issuer's first
+  // service and different content: lookups must go by the full id named in the status entry / the call
+  let foreign_same_fragment = ctx::choose(3) == 0;
+  if foreign_same_fragment {
+    let mut fb = RevocationBitmap::new();
+    for i in 0..64 {
+      fb.revoke(i);
+    }
+    if let Ok(svc) = fb.to_service(DIDUrl::parse("did:sim:otherissuer#rev0").unwrap()) {
+      let ok = match &mut issuer.doc {
+        AnyDoc::Core(d) => d.insert_service(svc).is_ok(),
+        AnyDoc::Iota(d) => d.insert_service(svc).is_ok(),
+      };
+      if ok {
+        ctx::stat("probe.foreign_service_same_fragment");
+      }
+    }
+  }
   let mut model: BTreeMap<String, BTreeSet<u32>> = services.iter().map(|s| (s.clone(), BTreeSet::new())).collect();
   let mut mentioned: BTreeSet<u32> = BTreeSet::new();
   // model per published version
@@ -238,7 +257,7 @@ pub fn run(params: &Params) {
         let sid = services[ctx::choose(services.len())].clone();
         let (batch, kind) = gen_batch(max_batch, &mut next_seq, &mentioned);
         // by full id or by fragment
-        let query: String = if ctx::choose(2) == 0 {
+        let query: String = if foreign_same_fragment || ctx::choose(2) == 0 {
           sid.clone()
         } else {
           sid.rsplit('#').next().unwrap().to_owned()
@@ -465,6 +484,17 @@ fn after_update(
       let m = &model[sid];
       let qs = query_set(m, mentioned, batch);
       check_bitmap(&format!("after-{op}"), got, m, &qs, &ep);
+      // a foreign-DID service sharing the fragment must never be touched by an update of the issuer's own service
+      if let Ok(fb) = core.resolve_revocation_bitmap("did:sim:otherissuer#rev0".into()) {
+        if fb.len() != 64 || !fb.is_revoked(0) || !fb.is_revoked(63) || fb.is_revoked(64) {
+          ctx::violation(
+            "C06",
+            "C06.exact_membership",
+            format!("after-{op}/foreign-service-with-same-fragment-modified"),
+            format!("the bitmap of did:sim:otherissuer#rev0 changed (now {} members) when {sid} was updated", fb.len()),
+          );
+        }
+      }
       // other services untouched
       for (other, om) in model.iter() {
         if other != sid {
